@@ -5,7 +5,7 @@
    known finding C11-stake-leaf-concatenation (a separator would change the signed root). *)
 From Coq Require Import String.
 From MV Require Import Base.Prelude Base.SymHash.
-From MV Require Import C09.Model C11.Model C11.Proofs C11.ProofsSd.
+From MV Require Import C09.Model C09.MmrProofs C09.RawLeaf C11.Model C11.Proofs C11.ProofsRaw C11.ProofsSd.
 Open Scope N_scope.
 
 Definition sd_a : sdist := [(bytes_of_string "pool1abc8", 5)].
@@ -34,4 +34,71 @@ Theorem C11_refuted_sd_leaf : exists e e', e <> e' /\ sd_leaf e = sd_leaf e'.
 Proof.
   exists (bytes_of_string "p8", 5), (bytes_of_string "p", 85).
   split; [intros H; discriminate H | vm_compute; reflexivity].
+Qed.
+
+(* ------------------------------------------------------------------ raw sibling leaves
+   Known finding C11-raw-leaf-boundary (the C09-raw-leaf-boundary defect seen from the client's
+   entry points).  "Every reported item is a leaf of the certified chain" is false for the
+   faithful model: the chain commits Tx/aa/bb/100/12 and Tx/cc/bb/100/12 as sibling leaves of the
+   range 0-15; the response reports Tx/aa/bb/100/1 (slot 1, not 12) with the sub-proof item
+   "2Tx/cc/bb/100/12".  verify accepts, the recomputed message matches the signed one.
+   Reproduced on the real code by the harness (kinds raw-boundary-slot-cut, raw-boundary-hash-cut, raw-boundary-key-cut). *)
+Definition W_t1 : tx := {| t_hash := bytes_of_string "aa"; t_bhash := bytes_of_string "bb"; t_bn := 100; t_slot := 12 |}.
+Definition W_t2 : tx := {| t_hash := bytes_of_string "cc"; t_bhash := bytes_of_string "bb"; t_bn := 100; t_slot := 12 |}.
+Definition W_t1' : tx := {| t_hash := bytes_of_string "aa"; t_bhash := bytes_of_string "bb"; t_bn := 100; t_slot := 1 |}.
+Definition W_rs : list (N * N * list item) := [((0, 15), [ITx W_t1; ITx W_t2])].
+Definition W_key : bytes := range_key 0 15.
+Definition W_SR : bt := Mrg (BLit (leaf_tx W_t1)) (BLit (leaf_tx W_t2)).
+Definition W_R : bt := Mrg (BLit W_key) W_SR.
+Definition W_master : mkproof := {| p_root := W_R; p_leaves := [(0, W_R)]; p_size := 1; p_items := [] |}.
+Definition W_sub : mkproof :=
+  {| p_root := W_SR; p_leaves := [(0, BLit (leaf_tx W_t1'))]; p_size := 3;
+     p_items := [BLit (50 :: leaf_tx W_t2)] |}.
+Definition W_msg : v2msg :=
+  {| v2_part := Some ([ITx W_t1'], Some (MapProof W_master [(BLit W_key, MapProof W_sub [])]));
+     v2_lbn := 100; v2_off := 15 |}.
+
+Theorem C11_refuted_raw_leaf_boundary : exists rs ms R m v i,
+  master_leaves (chain_ranges rs) = Some ms /\ mmr_root ms = Some R /\
+  v2verify m = Ok v /\ norm R = v_root v /\ In i (v_items v) /\ wf_item i /\
+  (forall r, In r rs -> ~ In (leaf i) (map leaf (snd r))) /\ recut R (leaf i) /\
+  match_message (pm_hash (signed_v2 (norm R) 100 15)) (fill_v2 (signed_v2 (norm R) 100 15) v) = true.
+Proof.
+  exists W_rs, [W_R], W_R, W_msg. eexists. exists (ITx W_t1').
+  split; [vm_compute; reflexivity|].
+  split; [vm_compute; reflexivity|].
+  split; [vm_compute; reflexivity|].
+  split; [vm_compute; reflexivity|].
+  split; [left; reflexivity|].
+  split; [split; vm_compute; intros H; repeat (destruct H as [H|H]; [discriminate H|]); exact H|].
+  split.
+  - intros r [<-|[]]. vm_compute. intros H. repeat (destruct H as [H|H]; [discriminate H|]). exact H.
+  - split.
+    + exists (leaf_tx W_t1), (leaf_tx W_t2). split; [apply sub_r; apply sub_refl|].
+      split; [left; exists (50 :: leaf_tx W_t2); vm_compute; reflexivity|].
+      split; vm_compute; intros H; discriminate H.
+    + vm_compute. reflexivity.
+Qed.
+
+(* the same defect on stake distributions: two sibling leaves "pa5" ++ "pb1x7" re-cut as
+   "pa5pb1" ++ "x7": different mappings, different leaf lists (not the digit-move class), different
+   ideal roots, the same root BYTES; the client accepts the second against the certificate of the
+   first *)
+Definition sd_c : sdist := [(bytes_of_string "pa", 5); (bytes_of_string "pb1x", 7)].
+Definition sd_d : sdist := [(bytes_of_string "pa5pb", 1); (bytes_of_string "x", 7)].
+
+Theorem C11_refuted_sd_boundary : exists a b root epoch m,
+  a <> b /\ ~ Known_digit_move a b /\ sd_root a <> sd_root b /\
+  sd_root_b a = Some root /\ sd_root_b b = Some root /\
+  fill_sd (signed_sd root epoch) b epoch = Ok m /\
+  match_message (pm_hash (signed_sd root epoch)) m = true.
+Proof.
+  exists sd_c, sd_d. eexists. exists 7. eexists.
+  split; [intros H; discriminate H|].
+  split; [intros [H _]; vm_compute in H; discriminate H|].
+  split; [vm_compute; intros H; discriminate H|].
+  split; [vm_compute; reflexivity|].
+  split; [vm_compute; reflexivity|].
+  split; [vm_compute; reflexivity|].
+  vm_compute. reflexivity.
 Qed.
